@@ -4,6 +4,7 @@
 import Verif.Drv.Tok
 import Verif.Drv.Transient
 import Verif.Drv.Core
+import Verif.Drv.PingSched
 
 partial def lineLoop (h : IO.FS.Stream) (out : IO.FS.Stream) (f : String → Option String) : IO Unit := do
   let line ← h.getLine
@@ -28,6 +29,9 @@ def main (args : List String) : IO UInt32 := do
   | ["tok"] => lineLoop stdin stdout Verif.Drv.Tok.step; return 0
   | ["transient"] => stateLoop stdin stdout Verif.Drv.Transient.stepModel none; return 0
   | ["core"] => stateLoop stdin stdout Verif.Drv.Core.stepLine {}; return 0
+  | ["pingenum", lim] => stateLoop stdin stdout (Verif.Drv.PingSched.enumLine (lim.toNat?.getD 1000)) {}; return 0
+  | ["c03mon"] => stateLoop stdin stdout Verif.Drv.PingSched.monLine none; return 0
+  | ["pingsched"] => stateLoop stdin stdout Verif.Drv.PingSched.stepLine {}; return 0
   | ["coremon"] => stateLoop stdin stdout Verif.Drv.Core.monLine {}; return 0
   | ["c18mon"] => stateLoop stdin stdout Verif.Drv.Transient.stepMon {}; return 0
   | _ => IO.eprintln "usage: drv tok|transient|c18mon"; return 2
